@@ -7,7 +7,7 @@ import json
 
 from harness.drivers import _obs as O
 
-EXCS = ["ValueError", "KeyError", "RuntimeError", "ZeroDivisionError", "ProbeError"]
+EXCS = ["ValueError", "KeyError", "RuntimeError", "ZeroDivisionError", "ProbeError", "StopIteration", "AssertionError"]
 
 
 def check_modes_dispatch(ctx):
